@@ -54,7 +54,7 @@ def styles(rnd, case: dict) -> dict:
 
 def run(tier: str, seed: int, rep: Report, model: Model) -> dict:
     rnd = rng_for("C02", seed)
-    n = depth(tier, 1000, 10000)
+    n = depth(tier, 1000, 40000)
     rep.rule = ("conforming contexts (as C01) in a random call style: positional / keyword / mixed / omitted defaults / unhashable default; "
                 "distinct = distinct (signature, values, style); non-trivial = at least two annotated tensors")
     cases = corpus()
